@@ -706,7 +706,9 @@ func randomDict(r *rand.Rand) cadence.Dictionary {
 			}
 			return mustV(cadence.NewInt256FromBig(n))
 		}},
-		{cadence.UFix64Type, func() cadence.Value { return mustV(cadence.NewUFix64FromParts(r.Intn(100000), uint(r.Intn(100000000)))) }},
+		{cadence.UFix64Type, func() cadence.Value {
+			return mustV(cadence.NewUFix64FromParts(r.Intn(100000), uint(r.Intn(100000000))))
+		}},
 		{cadence.Fix64Type, func() cadence.Value {
 			return mustV(cadence.NewFix64FromParts(r.Intn(2) == 0, r.Intn(100000), uint(r.Intn(100000000))))
 		}},
@@ -734,7 +736,9 @@ func randomDict(r *rand.Rand) cadence.Dictionary {
 		{cadence.StoragePathType, func() cadence.Value {
 			return mustV(cadence.NewPath(common.PathDomainStorage, []string{"a", "b", "ab", "foo", "B", "a1"}[r.Intn(6)]))
 		}},
-		{enumT, func() cadence.Value { return cadence.NewEnum([]cadence.Value{cadence.NewUInt8(uint8(r.Intn(20)))}).WithType(enumT) }},
+		{enumT, func() cadence.Value {
+			return cadence.NewEnum([]cadence.Value{cadence.NewUInt8(uint8(r.Intn(20)))}).WithType(enumT)
+		}},
 	}
 	g := gens[r.Intn(len(gens))]
 	n := 2 + r.Intn(5)
